@@ -128,6 +128,13 @@ def make_case(nc, nd, no, pattern, ai, perm_seed=0, other_off=0, completed=False
         if no == 0:
             return None
         ro_ids[nc + nd] = ('RO1 ', '\n  RO1\n  ', ' RO1', 'ro1')[(perm_seed + other_off + no) % 4]
+    elif pattern == 'other-nfd':
+        # canonically equivalent, but another string: composed vs decomposed e-acute; IDs with braces / percent
+        if no == 0:
+            return None
+        base = ('RO-\u00e9', '{8F2A-RO}', 'RO %s {0}')[(perm_seed + other_off + no) % 3]
+        ro_ids = [base] * len(kinds)
+        ro_ids[nc + nd] = {'RO-\u00e9': 'RO-e\u0301', '{8F2A-RO}': '{8F2A-RO} ', 'RO %s {0}': 'RO %s {1}'}[base]
     elif pattern == 'other-blank':
         if no == 0:
             return None
@@ -257,7 +264,7 @@ def run(tier, seed, procs):
     cases = []
     top = 3 if quick else 4
     pats = ['all-equal', 'other-deviates', 'delete-deviates', 'second-create-deviates', 'only-create-deviates',
-            'other-blank', 'delete-blank', 'other-padded']
+            'other-blank', 'delete-blank', 'other-padded', 'other-nfd']
     for nc, nd, no, pat, ai in itertools.product(range(top + 1), range(top + 1), range(top + 1),
                                                  pats, (False, True)):
         for ps in ((0,) if quick else (0, 1, 2, 3)):
